@@ -630,12 +630,14 @@ from harness.h_hist import C19_TEXT  # noqa: E402
 
 
 CV = H.part("VF_CV", 0)      # the chart under test: 0 default, 1 want_tracks=[], 2 one selected track,
-#                              3 Player2 = rhythm with bass tracks only, 4 a long track (600 notes)
-_C19_WANT = [None, [], [(Instrument.DRUMS, Difficulty.HARD)], None, None][CV]
+#                              3 Player2 = rhythm with bass tracks only, 4 a long track (600 notes), 5 note-less tracks
+_C19_WANT = [None, [], [(Instrument.DRUMS, Difficulty.HARD)], None, None, None][CV]
 _C19_TEXTS = [C19_TEXT, C19_TEXT, C19_TEXT,
               C19_TEXT.replace('  Name = "t"', '  Name = "t"\n  Player2 = rhythm').replace("[HardDrums]", "[HardDoubleBass]")
               + "[EasyDoubleBass]\n{\n  0 = N 1 0\n}\n",
-              C19_TEXT.replace("[HardDrums]", "[HardSingle]\n{\n" + "".join("  %d = N %d 0\n" % (10 * k, k % 5) for k in range(600)) + "}\n[HardDrums]")]
+              C19_TEXT.replace("[HardDrums]", "[HardSingle]\n{\n" + "".join("  %d = N %d 0\n" % (10 * k, k % 5) for k in range(600)) + "}\n[HardDrums]"),
+              # 5: tracks without any note (a phrase only / nothing at all) next to tracks with notes
+              C19_TEXT + "[EasySingle]\n{\n  0 = S 2 100\n}\n[MediumDrums]\n{\n}\n"]
 
 
 def _parse_c19():
